@@ -174,7 +174,16 @@ def binopCore (op : BinOp) (l r : View) : Except Err PRes :=
 
 /-! ### text of values (`Display for Object`) -/
 
-def intToText (i : Int) : Text := (toString i).toList
+/-- decimal spelling of a natural number (most significant digit first) -/
+def natToDec (n : Nat) : Text :=
+  if h : n < 10 then [Char.ofNat (48 + n)]
+  else natToDec (n / 10) ++ [Char.ofNat (48 + n % 10)]
+termination_by n
+decreasing_by omega
+
+/-- `isize::to_string` -/
+def intToText (i : Int) : Text :=
+  if i < 0 then '-' :: natToDec i.natAbs else natToDec i.natAbs
 
 /-- deep view of a value: what `print`, `Display` and the canonical observation look at -/
 inductive Tree where
@@ -257,12 +266,15 @@ def isUniSpace (c : Char) : Bool :=
 def trimText (s : Text) : Text :=
   ((s.dropWhile isUniSpace).reverse.dropWhile isUniSpace).reverse
 
+/-- optional sign of a decimal number -/
+def splitSign : Text → Bool × Text
+  | '-' :: r => (true, r)
+  | '+' :: r => (false, r)
+  | s => (false, s)
+
 /-- `str::parse::<isize>()`: optional sign, at least one ASCII digit, must fit 64 bits -/
 def parseIntText (s : Text) : Option Int :=
-  let (neg, ds) := match s with
-    | '-' :: r => (true, r)
-    | '+' :: r => (false, r)
-    | _ => (false, s)
+  let (neg, ds) := splitSign s
   if ds.isEmpty || !ds.all Char.isDigit then none
   else
     let n : Int := F64.digitsToNat ds
